@@ -6,6 +6,7 @@ against the valuations the real lexer reaches (bounded runs record every valuati
 """
 from contracts.base import contract
 from contracts.lib import lexer_flags
+from contracts.lib import PARSE_PROPS
 
 # characters t_ID's rule can match (one token never contains white space or quotes)
 TID_VALUE = r"[a-zA-Z_,0-9:><\/\\=\-+~%$@#|&?;*()!{}\[\]`]+"
@@ -28,7 +29,7 @@ class TIdColumnNamePosition:
     """Directly after the '(' or a ',' of a table's column list every word - keyword-shaped or not -
     is an identifier, reported exactly as written (C06 / C01)."""
     fn = "ddl_parser.DDLParser.t_ID"
-    props = ["C06", "C01"]
+    props = PARSE_PROPS
     cases = {"after-LP": dict(last="LP"), "after-COMMA": dict(last="COMMA")}
 
     def build(G, case):
@@ -55,7 +56,7 @@ class TIdSequenceMode:
     """Inside CREATE SEQUENCE the ten option words are keywords in every letter case, everything
     else is a plain value (C17 / C05)."""
     fn = "ddl_parser.DDLParser.t_ID"
-    props = ["C17", "C05", "C06"]        # C06: a sequence (or its schema) may be called like a keyword of another context
+    props = PARSE_PROPS
     cases = {"option-or-value": {}}
 
     def build(G, case):
@@ -84,7 +85,7 @@ class ParenthesisDepth:
     """lp_open counts the parentheses still open: a closing parenthesis decrements it (never below zero), the one that
     closes the column list switches to the after-columns context; last_par remembers the kind of the last parenthesis"""
     fn = "ddl_parser.DDLParser.set_parenthesis_tokens"
-    props = ["C01", "C09", "C11", "C02", "C07"]      # C02 / C07: a parenthesis inside a CHECK expression does not end the CHECK context
+    props = PARSE_PROPS
     cases = {"any-token": {}}
 
     def build(G, case):
@@ -106,7 +107,7 @@ class ParenthesisDepth:
 class OpeningParenthesis:
     """'(' : one more open parenthesis, the column-definition context starts, the token is LP"""
     fn = "ddl_parser.DDLParser.t_ID"
-    props = ["C01", "C09"]
+    props = PARSE_PROPS
     cases = {"(": {}}
 
     def build(G, case):
@@ -126,7 +127,7 @@ class StatementKindFlags:
     """the statement-kind flags follow the keywords: ALTER -> is_alter, LIKE -> is_like, TYPE / DOMAIN / TABLESPACE clear
     is_table, TABLE / INDEX set it (outside ALTER); a comma between column definitions ends a CHECK context"""
     fn = "ddl_parser.DDLParser.set_lexx_tags"
-    props = ["C01", "C03", "C09", "C02", "C07"]
+    props = PARSE_PROPS
     cases = {"any-token": {}}
 
     def build(G, case):
@@ -161,7 +162,7 @@ class ContextOpeningKeywords:
     """SEQUENCE opens the sequence context, CHECK opens the CHECK context (a flag: it lasts until the comma that ends the
     column / constraint, whatever is nested inside the expression); no other token type touches the context here"""
     fn = "ddl_parser.DDLParser.set_lexer_tags"
-    props = ["C02", "C07", "C17", "C09", "C03"]
+    props = PARSE_PROPS
     cases = {"any-token": {}}
 
     def build(G, case):
@@ -180,7 +181,7 @@ class ResetLexerFlags:
     """set_default_flags_in_lexer puts every context flag of the lexer back to its start value (False, the `<` counter
     to 0), whatever it held"""
     fn = "parser.Parser.set_default_flags_in_lexer"
-    props = ["C03", "C01", "C05", "C08", "C09", "C12", "C16", "C17", "C18"]
+    props = PARSE_PROPS
     cases = {"any lexer state": {}}
 
     def build(G, case):
